@@ -51,7 +51,10 @@ class ConstFolder:
             if n.id in local:
                 return local[n.id]
             if n.id in self.env:
-                return self.env[n.id]
+                v = self.env[n.id]
+                if isinstance(v, Unfoldable):
+                    raise Unfoldable(f"name {n.id} ({v})")
+                return v
             raise Unfoldable(f"name {n.id}")
         if isinstance(n, ast.Dict):
             d = {}
@@ -165,6 +168,10 @@ class ConstFolder:
         args = [self.ev(a, local) for a in n.args]
         if isinstance(f, ast.Attribute):
             # re.compile
+            if isinstance(f.value, ast.Name) and f.value.id == "re" and f.attr == "escape" and len(args) == 1 and isinstance(args[0], str):
+                import re as _re
+
+                return _re.escape(args[0])
             if isinstance(f.value, ast.Name) and f.value.id == "re" and f.attr == "compile":
                 if not isinstance(args[0], str):
                     raise Unfoldable("re.compile arg")
